@@ -39,7 +39,6 @@ structure St where
   peerCumAck : Nat := 0                             -- highest cumulative TSN the peer acknowledged
   dcepBuf : List (Nat × Array UInt8) := []          -- `dcep_reassembly`: stream → partial DCEP message (absent = empty)
   ev : List (List Nat) := []                        -- events of the current packet (reversed)
-  failed : Bool := false                            -- a handler returned `Err` (`?`): the rest of the packet is skipped
 
 def St.emit (s : St) (e : List Nat) : St := { s with ev := e :: s.ev }
 
@@ -53,6 +52,8 @@ def handleDcepSt (s : St) (sid : Nat) : Cur St := do
     if ¬ r.1 then pure s else                               -- `DataChannelOpen::unmarshal(&data)?` — the caller drops the error
     match r.2.1 with
     | [ct, _prio, rel, labelLen, protoLen] =>
+      -- an OPEN on an unused stream id is refused once `MAX_DATA_CHANNELS` channels are live (the error is dropped by the caller)
+      if ¬ s.chans.contains sid ∧ s.chans.length ≥ c07MaxDataChannels then pure s else
       let s : St := if s.chans.contains sid then s else
         { s with chans := sid :: s.chans }.emit
           [1000, sid, labelLen, protoLen, if ct / 128 % 2 = 0 then 1 else 0,
@@ -108,7 +109,6 @@ def processBatch : St → List (Nat × Nat × Array UInt8) → Cur St
   | s, [] => pure s
   | s, e :: rest => do
     let s ← processData s e.2.1 e.2.2
-    if s.failed then pure s else                          -- `?`: the rest of the batch is dropped, cum not advanced
     processBatch { s with cum := u32add s.cum 1 } rest
 
 /-- `handle_data(flags, chunk)` -/
@@ -119,7 +119,7 @@ def handleDataSt (s : St) (flags : Nat) (v : Array UInt8) : Cur St := do
   if diff = 0 ∨ diff > 2147483648 then pure s else
   if diff = 1 ∧ s.queue.isEmpty then
     let s ← processData s flags v
-    pure (if s.failed then s else { s with cum := tsn })
+    pure { s with cum := tsn }
   else
     let q := if s.queue.any (fun e => e.1 = tsn) then s.queue else (tsn, flags, v) :: s.queue
     let r ← loopM (drainBody s.cum) (q.length + 1) ([], q)
@@ -185,7 +185,7 @@ def fwdDrainBody (s : St) : Cur (St ⊕ St) := do
   | none => pure (.inr s)
   | some e =>
     let s' ← processData { s with queue := s.queue.filter (fun x => x.1 ≠ next) } e.2.1 e.2.2
-    if s'.failed then pure (.inr s') else pure (.inl { s' with cum := next })
+    pure (.inl { s' with cum := next })
 
 def handleForwardTsnSt (s : St) : Cur St := do
   if (← remaining) < 4 then pure s else
@@ -265,9 +265,11 @@ def chunkWalkBodySt (s : St) : Cur (St ⊕ St) := do
   let padding := (4 - cl % 4) % 4
   if (← remaining) ≥ padding then advance padding else pure ()
   let s ← handleChunkSt s ct flags v
-  if s.failed then pure (.inr s) else pure (.inl s)
+  pure (.inl s)
 
-/-- one packet on the association; an `Err` of a handler (`?`) ends the packet but keeps what was done before it -/
+/-- one packet on the association. A handler `Err` (`?`) would end the packet; after main's change that drops DCEP errors the only
+source of one is a failed send on a closed DTLS transport, which this model does not contain (the fixture keeps the link open; the
+harness prints `9999` for a handler error, so one would show as a disagreement). -/
 def handlePacketSt (s : St) (crcOk : Bool) : Cur St := do
   if (← remaining) < c07SctpCommonHeader then pure s else
   let _sp ← getU16
@@ -288,13 +290,13 @@ structure Pkt where
 def St.digest (s : St) : List (List Nat) :=
   let evs := s.ev.reverse
   evs.filter (fun e => e.head? ≠ some 1000) ++ evs.filter (fun e => e.head? = some 1000) ++
-    (if s.failed then [[9999]] else []) ++ [[s.cum, s.queue.length, s.peerRwnd]]
+    [[s.cum, s.queue.length, s.peerRwnd]]
 
-/-- run a history; a handler error ends only its packet (the run loop logs it and goes on) -/
+/-- run a history -/
 def runHistory : St → List Pkt → Cur (List (List (List Nat)))
   | _, [] => pure []
   | s, p :: rest => do
-    let r ← onBuf (Buf.ofList p.bytes) (handlePacketSt { s with ev := [], failed := false } p.crcOk)
+    let r ← onBuf (Buf.ofList p.bytes) (handlePacketSt { s with ev := [] } p.crcOk)
     let s1 : St := { r.1 with cookies := p.issued ++ r.1.cookies }
     let more ← runHistory s1 rest
     pure (s1.digest :: more)
